@@ -28,6 +28,12 @@ def LTree.condSem (c : String) (st : Sspor) (a : UpdArgs) : Option Bool :=
     some (match a.v with
       | .other => false
       | .int z => st.basis.fitted.isSome && (match st.basis.nModes with | some nm => decide (z.toNat ≤ nm) | none => false))
+  else if c = "self.n_sensors is None or getattr(self, '_n_sensors_defaulted', False)" then
+    some (st.nSensors.isNone || st.defaulted)
+  else if c = "self.n_sensors > max_sensors" then
+    some (match st.nSensors, st.bm with | some k, some shape => decide (k > shape.1) | _, _ => false)
+  else if c = "isinstance(self.optimizer, CCQR) and self.n_sensors > self.basis_matrix_.shape[1]" then
+    some false        -- decides only whether a warning is printed (both arms have the same effect on the model)
   else if c = "x is None" then some a.x.isNone
   else if c = "n_basis_modes > x.shape[0]" then
     some (match a.v, a.x with | .int z, some (ne, _) => decide (z.toNat > ne) | _, _ => false)
@@ -35,6 +41,15 @@ def LTree.condSem (c : String) (st : Sspor) (a : UpdArgs) : Option Bool :=
 
 /-- meaning of the recognised statements: the new state and, for a call of `fit`, its error -/
 def LTree.actSem (s : String) (st : Sspor) (a : UpdArgs) : Option (Sspor × Option Err) :=
+  -- statements of `_validate_n_sensors` (no arguments)
+  if s = "check_is_fitted(self, 'basis_matrix_')" then
+    some (st, if st.bm.isSome then none else some .notFitted)
+  else if s = "max_sensors = self.basis_matrix_.shape[0]" then some (st, none)      -- a local name for `bm.1`
+  else if s = "self.n_sensors = max_sensors" then
+    (match st.bm with | some shape => some ({ st with nSensors := some shape.1 }, none) | none => none)
+  else if s = "self._n_sensors_defaulted = True" then some ({ st with defaulted := true }, none)
+  else if s.startsWith "warnings.warn(" then some (st, none)
+  else
   match a.v with
   | .other => none
   | .int z =>
@@ -75,5 +90,44 @@ def LTree.updModesSpec : LTree :=
         (.branch "n_basis_modes > x.shape[0]" (.raise "ValueError")
           (.act "self.n_basis_modes = n_basis_modes" (.act "self.basis.n_basis_modes = n_basis_modes"
             (.act "self.fit(x, prefit_basis=False, quiet=quiet)" .done))))))
+
+/-- `SSPOR._validate_n_sensors` as it stands -/
+def LTree.validateSpec : LTree :=
+  .act "check_is_fitted(self, 'basis_matrix_')" (.act "max_sensors = self.basis_matrix_.shape[0]"
+    (.branch "self.n_sensors is None or getattr(self, '_n_sensors_defaulted', False)"
+      (.act "self.n_sensors = max_sensors" (.act "self._n_sensors_defaulted = True"
+        (.branch "isinstance(self.optimizer, CCQR) and self.n_sensors > self.basis_matrix_.shape[1]"
+          (.act "warnings.warn('Number of sensors exceeds number of samples, which may cause CCQR to select sensors in constrained regions.')" .done)
+          .done)))
+      (.branch "self.n_sensors > max_sensors" (.raise "ValueError")
+        (.branch "isinstance(self.optimizer, CCQR) and self.n_sensors > self.basis_matrix_.shape[1]"
+          (.act "warnings.warn('Number of sensors exceeds number of samples, which may cause CCQR to select sensors in constrained regions.')" .done)
+          .done))))
+
+/-- the part of `SSPOR.fit` in front of the optimizer call, as it stands: basis step (checked to be fitted / fitted on the validated
+data, with or without warnings), matrix representation with the model's own `n_basis_modes`, `_validate_n_sensors` – in this order
+(`Sspor.fit_eq_validate` is the machine's `fit` in the same three steps; everything after is the ranking translator's business) -/
+def LTree.fitHeadSpec : LTree :=
+  .branch "prefit_basis"
+    (.act "check_is_fitted(self.basis, 'basis_matrix_')"
+      (.act "self.basis_matrix_ = self.basis.matrix_representation(n_basis_modes=self.n_basis_modes)" (.act "self._validate_n_sensors()" .done)))
+    (.act "x = validate_input(x)"
+      (.branch "quiet"
+        (.act "with warnings.catch_warnings():\n    warnings.filterwarnings('ignore', category=UserWarning)\n    self.basis.fit(x)"
+          (.act "self.basis_matrix_ = self.basis.matrix_representation(n_basis_modes=self.n_basis_modes)" (.act "self._validate_n_sensors()" .done)))
+        (.act "self.basis.fit(x)"
+          (.act "self.basis_matrix_ = self.basis.matrix_representation(n_basis_modes=self.n_basis_modes)" (.act "self._validate_n_sensors()" .done)))))
+
+/-- step 3 of `Sspor.fit` (`_validate_n_sensors`) as a function of its own: the default count follows the data, an explicit
+count is checked against the number of sensor rows -/
+def Sspor.validateN (st : Sspor) : Sspor × Option Err :=
+  match st.bm with
+  | none => (st, some .notFitted)
+  | some shape =>
+    match st.nSensors with
+    | none => ({ st with nSensors := some shape.1, defaulted := true }, none)
+    | some k =>
+      if st.defaulted then ({ st with nSensors := some shape.1, defaulted := true }, none)
+      else if k > shape.1 then (st, some .valueError) else (st, none)
 
 end PsVerif
